@@ -1,6 +1,7 @@
 package harness
 
 import (
+	"context"
 	"fmt"
 	"reflect"
 	"strings"
@@ -238,8 +239,120 @@ func withLeakInvariant(in []*Scenario) []*Scenario {
 	return in
 }
 
+// c14Dedicated: histories that exist only for the leak oracle.
+func c14Dedicated(tier string) []*Scenario {
+	var scs []*Scenario
+	bound := 2
+	if tier == "thorough" {
+		bound = 3
+	}
+	// (1) RPCs whose context is never cancelled, started around the moment the carrier breaks or
+	// the channel is closed: a start that fails must leave nothing behind
+	for _, cause := range []string{"break", "chclose", "openctx"} {
+		for _, rev := range []bool{false, true} {
+			cause, rev := cause, rev
+			cfg := TunCfg{Reverse: rev, WithBreak: cause == "break"}
+			scs = append(scs, &Scenario{
+				Name: fmt.Sprintf("c14/start-vs-%s/%s", cause, cfg), Prop: "C14", Heavy: true,
+				Desc: fmt.Sprintf("two RPCs whose contexts are never cancelled are started on a %s tunnel while %q strikes at any point (one of them only after the other ended); a start that fails, or an RPC ended by the tunnel, must leave no goroutine and no table entry; <= %d deviations", cfg, cause, bound),
+				Opt:  Options{Level: "io", Bound: bound, DevOK: oneFaultAnyOrder},
+				Run: func(w *World) {
+					w.Invariants = append(w.Invariants, leakInvariant(w))
+					t := w.OpenTunnel(cfg)
+					if t.StartErr != nil {
+						return
+					}
+					if cause != "break" {
+						w.StartFault(t, cause)
+					}
+					a := StdWorkload("k1", 1, "Unary", []int{3}, []int{3})
+					b := StdWorkload("k2", 2, "Bidi", []int{3}, []int{3})
+					a.Call.KeepCtx, b.Call.KeepCtx = true, true
+					w.Join(w.StartCallers(t, []Workload{a})...)
+					w.Join(w.StartCallers(t, []Workload{b})...)
+					t.Close()
+				},
+				// the clean close waits for every per-RPC goroutine of the library: a goroutine
+				// that never ends shows up as the scenario never finishing
+				Check: func(w *World, x *Exec) []Violation {
+					vs := NoHang(x, "C14")
+					for i := range vs {
+						vs[i].Rule, vs[i].Sig = "no-goroutine-left", "leak:never-ends:"+vs[i].Sig
+					}
+					return vs
+				},
+			})
+		}
+	}
+	// (2) a reverse tunnel that is stopped / whose serving context is cancelled while it is
+	// being opened and registered
+	for _, how := range []string{"stop", "cancel"} {
+		for _, keyed := range []bool{false, true} {
+			how, keyed := how, keyed
+			scs = append(scs, &Scenario{
+				Name: fmt.Sprintf("c14/open-vs-%s/keyed=%v", how, keyed), Prop: "C14", Heavy: true,
+				Desc: fmt.Sprintf("ReverseTunnelServer.Serve opens a reverse tunnel (affinity key used: %v) while %s strikes at any point, including between the creation of the channel and its registration; every lock and channel operation of the registry code is a scheduling point; afterwards both registries must be empty; <= %d deviations", keyed, how, bound),
+				Opt: Options{Level: "focus", Bound: bound, DevOK: oneFaultAnyOrder, Focus: []string{"openReverseTunnel", "unregister", "add", "remove",
+					"reverseChannelsForKey", "close", "newReverseChannel", "newTunnelChannel", "recvLoop", "Serve", "addInstance", "Stop"}},
+				Run: func(w *World) {
+					ho := grpctunnel.TunnelServiceHandlerOptions{}
+					if keyed {
+						ho.AffinityKey = func(ch grpctunnel.TunnelChannel) any { return "k" }
+					}
+					h := grpctunnel.NewTunnelServiceHandler(ho)
+					n := NewNet(w, "T")
+					tunnelpb.RegisterTunnelServiceServer(n, h.Service())
+					rs := grpctunnel.NewReverseTunnelServer(tunnelpb.NewTunnelServiceClient(n))
+					rs.RegisterService(&TestSvcDesc, &TestServer{W: w, Name: "rev"})
+					ctx, cancel := context.WithCancel(context.Background())
+					defer cancel()
+					w.GoLow("fault:"+how, func() {
+						w.WaitUntil("fault-ready", func() bool { return true })
+						w.Log(Event{Actor: "fault", Op: how})
+						if how == "stop" {
+							rs.Stop()
+						} else {
+							cancel()
+						}
+					})
+					serve := w.Go("serve:T", true, func() {
+						started, err := rs.Serve(ctx)
+						em, ec := errFields(err)
+						w.Log(Event{Actor: "serve:T", Op: "serve-returned", Err: em, Code: ec, Detail: fmt.Sprintf("started=%v", started)})
+					})
+					w.Join(serve)
+					w.WaitUntil("carrier-done", func() bool {
+						for _, ms := range n.Streams {
+							if !ms.Finished {
+								return false
+							}
+						}
+						return true
+					})
+					w.Drain()
+					w.Point("env:views")
+					w.Log(Event{Actor: "views", Op: "end", Detail: fmt.Sprintf("all=%d ready=%v readyk=%v", len(h.AllReverseTunnels()), h.AsChannel().Ready(), h.KeyAsChannel("k").Ready())})
+				},
+				Check: func(w *World, x *Exec) []Violation {
+					if x.Hang {
+						return NoHang(x, "C14")
+					}
+					for _, e := range w.EventsOf("views") {
+						if e.Detail != "all=0 ready=false readyk=false" {
+							return []Violation{{Prop: "C14", Rule: "registry-equals-open-tunnels", Sig: "leak:registry-after-open-vs-" + how, Detail: "after the tunnel ended the handler still reports: " + e.Detail + "\n" + w.Outcome()}}
+						}
+					}
+					return nil
+				},
+			})
+		}
+	}
+	return scs
+}
+
 func c14Scenarios(tier string) []*Scenario {
 	var scs []*Scenario
+	scs = append(scs, c14Dedicated(tier)...)
 	add := func(in []*Scenario, keep func(string) bool) {
 		for _, sc := range withLeakInvariant(monitorOnly("c14/union/", "C14", in)) {
 			if keep == nil || keep(sc.Name) {
@@ -263,11 +376,11 @@ func c14Scenarios(tier string) []*Scenario {
 
 func init() {
 	register(&PropDef{ID: "C13", Level: "model_checking",
-		Rule: "an online automaton transcribed from tunnel.proto (settings first/once/id -1 and only when negotiated; one envelope per message, continuations <= 16 KiB summing exactly to the stated size and contiguous per stream; headers at most once and before any message; half-close and cancel at most once, no request data after half-close; ids strictly increasing, first frame new_stream; exactly one close per accepted or rejected stream, last frame of a stream its handler ended; no window_update/revision one without negotiation) judges both directions of every frame of every execution of: the union of the scenario families of C01 (sizes, concurrency, termination), C02 (handler op sequences, completion schedules), C04, C07, C10, C16(c), each explored at its own bound, plus dedicated races of handler emissions against receive-loop finishStream (cancel frame, protocol error, window overrun) at the granularity of every synchronisation operation of the server's emission path with <= 2 (quick) / 3 (thorough) deviations",
+		Rule:      "an online automaton transcribed from tunnel.proto (settings first/once/id -1 and only when negotiated; one envelope per message, continuations <= 16 KiB summing exactly to the stated size and contiguous per stream; headers at most once and before any message; half-close and cancel at most once, no request data after half-close; ids strictly increasing, first frame new_stream; exactly one close per accepted or rejected stream, last frame of a stream its handler ended; no window_update/revision one without negotiation) judges both directions of every frame of every execution of: the union of the scenario families of C01 (sizes, concurrency, termination), C02 (handler op sequences, completion schedules), C04, C07, C10, C16(c), each explored at its own bound, plus dedicated races of handler emissions against receive-loop finishStream (cancel frame, protocol error, window overrun) at the granularity of every synchronisation operation of the server's emission path with <= 2 (quick) / 3 (thorough) deviations",
 		Globals:   []func(*Scenario, *World, *Exec) []Violation{ProtoMonitor},
 		Scenarios: c13Scenarios})
 	register(&PropDef{ID: "C14", Level: "model_checking",
-		Rule: "after the tear-down of every execution: no thread of the library left, no goroutine left in the bubble, every tunnelChannel / tunnelServer stream table empty, reverse registries empty (read through reflection over objects recorded at allocation); at every idle quiescent point: tables hold only unfinished streams and per-RPC goroutines are accounted for by unfinished streams; judged over the union of the termination-heavy scenario families (C04 every cause at every point, C07 cancel/deadline at every point, C10 shutdown, C03 disturbers, C01 termination, C09 peer histories that open streams, C16 raw request sequences), each at its own bound",
+		Rule:      "after the tear-down of every execution: no thread of the library left, no goroutine left in the bubble, every tunnelChannel / tunnelServer stream table empty, reverse registries empty (read through reflection over objects recorded at allocation); at every idle quiescent point: tables hold only unfinished streams and per-RPC goroutines are accounted for by unfinished streams; dedicated histories (RPCs whose contexts are never cancelled started around a carrier failure / Close / context cancel; a reverse tunnel stopped or cancelled while it is being opened and registered, at lock granularity of the registry code) and the union of the termination-heavy scenario families (C04 every cause at every point, C07 cancel/deadline at every point, C10 shutdown, C03 disturbers, C01 termination, C09 peer histories that open streams, C16 raw request sequences), each at its own bound",
 		Globals:   []func(*Scenario, *World, *Exec) []Violation{leakGlobal},
 		Scenarios: c14Scenarios})
 }
